@@ -3,6 +3,7 @@ package core
 import (
 	"go/ast"
 	"go/constant"
+	"go/printer"
 	"go/token"
 	"go/types"
 	"strings"
@@ -514,4 +515,14 @@ func EnclosingFuncLit(root ast.Node, n ast.Node) *ast.FuncLit {
 		return true
 	})
 	return best
+}
+
+// Src renders a node as Go source (unlike ExprStr it does not elide
+// composite literals).
+func (p *Program) Src(n ast.Node) string {
+	var b strings.Builder
+	if err := printer.Fprint(&b, p.Fset, n); err != nil {
+		return "<?>"
+	}
+	return strings.Join(strings.Fields(b.String()), "")
 }
